@@ -249,8 +249,11 @@ def _fn_case(ctx, model, t, n, cplx, xflat, sizes=None, tag="fn", oracle=None, s
 
 
 def _gen_point(rng, t, n, cplx, tries=20):
+    positive = G.has_kind(t, "poisson")
     for _ in range(tries):
         x = G.dy(rng, (n,), cplx, nz=True)
+        if positive:
+            x = np.abs(x.real) + 0.125  # PoissonLoss: A x > 0 (A has positive entries)
         mk, mb = G.margin(t, x)
         if mk >= 1e-6 and (mb == 0.0 or mb >= 1e-6):
             return x
@@ -266,6 +269,8 @@ def stream_fn(ctx, model):
         cplx = bool(rng.random() < 0.5)
         n = int(rng.integers(1, 6))
         t = G.gen_tree(rng, n, cplx, int(rng.integers(0, depth_max + 1)))
+        if not cplx and rng.random() < 0.12:
+            t = G.gen_poisson_tree(rng, n)
         x = _gen_point(rng, t, n, cplx)
         done += 1
         if x is None:
@@ -396,36 +401,192 @@ def stream_boundary(ctx, model):
                      {"k": "huber", "delta": delta, "sep": False},
                      {"k": "mul", "c": 2.0, "side": "l", "f": {"k": "huber", "delta": delta, "sep": False}}):
             _fn_case(ctx, model, leaf, n, cplx, np.zeros(n), tag="boundary")
-    # L21Norm on 2-D arrays (and a block array with l2_axis=None): groups from the axis
+
+
+def _l21_groups(shape, axis):
+    """group index of every entry (row-major) for L21Norm(l2_axis=axis): position along the axes that
+    are NOT in l2_axis"""
+    nd = len(shape)
+    ax = tuple(range(nd)) if axis is None else ((axis,) if isinstance(axis, int) else tuple(axis))
+    rest = [a for a in range(nd) if a not in ax]
+    rshape = [shape[a] for a in rest]
+    grp = []
+    for idx in np.ndindex(*shape):
+        g = 0
+        for a, sz in zip(rest, rshape):
+            g = g * sz + idx[a]
+        grp.append(int(g))
+    return grp, int(np.prod(rshape)) if rshape else 1
+
+
+def stream_l21(ctx, model):
+    """L21Norm on 2-D / 3-D arrays for int / tuple / None axes, with some groups identically zero
+    (the guarded `_l2norm`: value 0 and gradient 0 on such a group, no NaN)"""
     import scico.numpy as snp
     from scico import functional
 
-    for _ in range(ctx.n(10, 60)):
+    rng = ctx.rng
+    for _ in range(ctx.n(16, 120)):
         cplx = bool(rng.random() < 0.5)
-        r, c = int(rng.integers(1, 4)), int(rng.integers(1, 4))
-        axis = [0, 1, None][int(rng.integers(3))]
-        if axis == 0:
-            grp = [j for i in range(r) for j in range(c)]
-            groups = c
-        elif axis == 1:
-            grp = [i for i in range(r) for j in range(c)]
-            groups = r
-        else:
-            grp = [0] * (r * c)
-            groups = 1
-        x = G.dy(rng, (r * c,), cplx, nz=True)
+        nd = int(rng.integers(2, 4))
+        shape = tuple(int(rng.integers(1, 4)) for _ in range(nd))
+        axes_opts = [None] + list(range(nd)) + ([(0, 1), (1, 2), (0, 2)] if nd == 3 else [(0, 1)])
+        axis = axes_opts[int(rng.integers(len(axes_opts)))]
+        grp, groups = _l21_groups(shape, axis)
+        n = int(np.prod(shape))
+        x = G.dy(rng, (n,), cplx, nz=True)
+        zero_groups = []
+        if rng.random() < 0.5 and groups > 1:
+            zg = int(rng.integers(groups))
+            zero_groups.append(zg)
+            for i in range(n):
+                if grp[i] == zg:
+                    x[i] = 0.0
         t = {"k": "l21", "axis": axis, "groups": groups, "grp": grp}
-        # evaluate on the 2-D array directly (the recipe builder works on flat arrays)
         f = functional.L21Norm(l2_axis=axis)
         dt = np.complex128 if cplx else np.float64
-        X = snp.array(np.asarray(x if cplx else x.real, dtype=dt).reshape(r, c))
-        got = model.call("fn", n=r * c, x=G.cv(x), f=G.to_model(t, r * c))
+        X = snp.array(np.asarray(x if cplx else x.real, dtype=dt).reshape(shape))
+        got = model.call("fn", n=n, x=G.cv(x), f=G.to_model(t, n))
         g = np.asarray(f.grad(X)).ravel()
         mg = G.from_cv(got["grad"])
-        ctx.case({"tag": "l21", "shape": [r, c], "axis": axis, "cplx": cplx}, ("l21", r, c, axis, cplx))
-        ctx.count("l21:axis=" + str(axis))
+        ctx.case({"tag": "l21", "shape": list(shape), "axis": str(axis), "cplx": cplx, "zero_group": bool(zero_groups)},
+                 ("l21", shape, str(axis), cplx, bool(zero_groups)))
+        ctx.count("l21:axis=" + ("tuple" if isinstance(axis, tuple) else str(axis)))
+        ctx.count(f"l21:ndim={nd}")
+        if zero_groups:
+            ctx.count("l21:with-zero-group")
         if not (common.close(float(f(X)), common.b2f(got["eval"]), TOLK) and common.allclose(g.real, mg.real, TOLK) and common.allclose(g.imag, mg.imag, TOLK)):
-            ctx.disagree("fn.l21", {"shape": [r, c], "axis": axis, "x": G.enc(x), "cplx": cplx}, G.enc(g), G.enc(mg))
+            case = {"shape": list(shape), "axis": axis, "x": G.enc(x), "cplx": cplx}
+
+            def orc(c, f=f, X=X, shape=shape, zero_groups=zero_groups, grp=grp):
+                gg = np.asarray(f.grad(X))
+                if np.any(np.isnan(gg)):
+                    return {"x": c["x"], "grad_has_nan": True}
+                for i, idx in enumerate(np.ndindex(*shape)):
+                    if grp[i] in zero_groups:
+                        continue  # a kink: the l2 norm of a zero group is not differentiable
+                    e = np.zeros(shape)
+                    e[idx] = 1.0
+                    fd = fd_directional(f, X, snp.array(e.astype(np.asarray(X).dtype)))
+                    if abs(fd - float(np.real(gg[idx]))) > 1e-5 * (1 + abs(fd)):
+                        return {"x": c["x"], "index": list(idx), "grad_component": float(np.real(gg[idx])), "finite_difference": fd}
+                return None
+
+            ctx.disagree("fn.l21", case, G.enc(g), G.enc(mg), oracle=orc)
+
+
+def _tv_build(case):
+    from scico import functional
+
+    dt = np.complex128 if case["cplx"] else np.float64
+    cls = functional.IsotropicTVNorm if case["iso"] else functional.AnisotropicTVNorm
+    axes = case["axes"]
+    return cls(circular=case["circular"], axes=None if axes is None else tuple(axes), input_shape=tuple(case["shape"]), input_dtype=dt)
+
+
+def tv_oracle(case):
+    """Re<f.grad(x), d> vs finite differences for the TV norm of the case (coordinate + random directions)"""
+    import scico.numpy as snp
+
+    common.setup_scico()
+    f = _tv_build(case)
+    shape, cplx = tuple(case["shape"]), case["cplx"]
+    dt = np.complex128 if cplx else np.float64
+    x = G.dec(case["x"], shape, cplx)
+    X = snp.array(np.asarray(x, dtype=dt))
+    g = np.asarray(f.grad(X))
+    if np.any(np.isnan(g)):
+        bad = nan_grad_but_differentiable(f, X, g, shape)
+        return {"x": case["x"], "grad_is_nan_at": bad} if bad else None
+    rr = np.random.Generator(np.random.PCG64(17))
+    dirs = []
+    for idx in np.ndindex(*shape):
+        e = np.zeros(shape, dtype=dt)
+        e[idx] = 1.0
+        dirs.append(e)
+        if cplx:
+            dirs.append(1j * e)
+    dirs += [np.asarray(G.dy(rr, shape, cplx), dtype=dt) for _ in range(3)]
+    for d in dirs:
+        fd = fd_directional(f, X, snp.array(d), 2.0**-12)
+        ri = float(np.real(np.sum(np.conj(g) * d)))
+        if abs(fd - ri) > 2e-5 * (1 + abs(fd) + abs(float(f(X)))):
+            return {"x": case["x"], "d": G.enc(d), "re_inner_grad_d": ri, "finite_difference": fd}
+    return None
+
+
+def stream_tv(ctx, model):
+    """AnisotropicTVNorm / IsotropicTVNorm = (l1 | l2,1 norm) o FiniteDifference: the dense matrix of the
+    operator the object actually applies (`f.G`, extracted on the basis) goes to the model as
+    `Loss(0, G, norm)`; value and gradient of the real object vs the model (theorems C07_scaled_sum,
+    C07_group_norm_structural_zero, C07_l1_structural_zero: the zero-padded boundary differences of the
+    non-circular forms are structural zeros)"""
+    import scico.numpy as snp
+
+    rng = ctx.rng
+    for _ in range(ctx.n(24, 240)):
+        cplx = bool(rng.random() < 0.4)
+        dt = np.complex128 if cplx else np.float64
+        nd = 1 if rng.random() < 0.25 else 2
+        shape = tuple(int(rng.integers(2, 5)) for _ in range(nd))
+        iso = bool(rng.random() < 0.5)
+        circular = bool(rng.random() < 0.5)
+        axes = None if (nd == 1 or rng.random() < 0.6) else [int(rng.integers(nd))]
+        n = int(np.prod(shape))
+        case = {"tag": "tv", "iso": iso, "circular": circular, "axes": axes, "shape": list(shape), "cplx": cplx}
+        f = _tv_build(case)
+        cols = []
+        for j in range(n):
+            e = np.zeros(n, dtype=dt)
+            e[j] = 1.0
+            out = f.G(snp.array(e.reshape(shape)))
+            if hasattr(out, "arrays"):
+                raise common.Infra("TVNorm.G returned a BlockArray")
+            cols.append(np.asarray(out).ravel())
+        Gm = np.stack(cols, axis=1)
+        m = Gm.shape[0]
+        structural = [bool(not np.any(Gm[i])) for i in range(m)]
+        x = None
+        for _try in range(20):
+            xx = G.dy(rng, (n,), cplx, nz=True) + 2.0**-6 * np.arange(n)
+            r = Gm @ xx
+            if iso:
+                gn = np.sqrt(np.array([np.sum(np.abs(r[p::n]) ** 2) for p in range(n)]))
+                gs = [all(structural[p::n]) for p in range(n)]
+                ok = all(s_ or v >= 1e-6 for v, s_ in zip(gn, gs))
+            else:
+                ok = all(s_ or abs(v) >= 1e-6 for v, s_ in zip(r, structural))
+            if ok:
+                x = xx
+                break
+        if x is None:
+            ctx.count("tv:no-smooth-point")
+            continue
+        case["x"] = G.enc(x)
+        inner = {"k": "l21", "axis": 0, "groups": n, "grp": [i % n for i in range(m)]} if iso else {"k": "l1"}
+        t = {"k": "loss", "s": 1.0, "op": {"kind": "matrix", "m": m, "M": G.enc(Gm)}, "y": G.enc(np.zeros(m)), "f": inner}
+        c = None
+        if rng.random() < 0.4:
+            c = G.dyscalar(rng)
+            t = {"k": "mul", "c": c, "side": "l", "f": t}
+        got = model.call("fn", n=n, x=G.cv(x), f=G.to_model(t, n))
+        X = snp.array(np.asarray(x if cplx else x.real, dtype=dt).reshape(shape))
+        fo = f if c is None else c * f
+        val, g = float(fo(X)), np.asarray(fo.grad(X))
+        ctx.case({k: v for k, v in case.items() if k != "x"} | {"scaled": c is not None},
+                 ("tv", iso, circular, str(axes), shape, cplx, c is not None))
+        ctx.count(f"tv:{'iso' if iso else 'aniso'}:{'circular' if circular else 'zero-padded'}")
+        ctx.count("tv:structural-zero-rows", int(sum(structural)))
+        if list(g.shape) != list(shape) or g.dtype != dt:
+            ctx.disagree("tv.grad.shape", case, {"shape": list(g.shape), "dtype": str(g.dtype)}, {"shape": list(shape), "dtype": str(np.dtype(dt))}, oracle=tv_oracle)
+            continue
+        if not common.close(val, common.b2f(got["eval"]), TOLK):
+            ctx.disagree("tv.eval", case, val, common.b2f(got["eval"]), oracle=tv_oracle)
+            continue
+        mg = G.from_cv(got["grad"])
+        if c is not None:
+            case = dict(case, scale=c)
+        _cmp_vec(ctx, "tv.grad", case, g, mg, tv_oracle)
 
 
 def stream_div_reject(ctx, model):
@@ -589,6 +750,13 @@ def stream_jac(ctx, model):
         ok = ok and _cmp_vec(ctx, "jac.jvp", case, Jv, G.from_cv(got["jvp"]), jac_oracle)
         Fu2, Gmap = F.vjp(U, conjugate=conjugate)
         ok = ok and _cmp_vec(ctx, "jac.vjp", case, Gmap(W), G.from_cv(got["vjp"]), jac_oracle)
+        # the operator family inside the model (theorem C07_operator_jacobian: Op.jvp IS the derivative of
+        # Op.eval, Op.vjpT its transpose): value, jvp and Gmap computed by the model from A, B, C, c
+        gop = model.call("opjac", n=n, m=m, F={"A": G.cmat(A), "B": G.cmat(B), "C": G.cmat(C), "c": G.cv(c0)},
+                         u=G.cv(u), v=G.cv(v), w=G.cv(w))
+        ok = ok and _cmp_vec(ctx, "jac.op.value", case, Fu, G.from_cv(gop["eval"]), jac_oracle)
+        ok = ok and _cmp_vec(ctx, "jac.op.jvp", case, Jv, G.from_cv(gop["jvp"]), jac_oracle)
+        ok = ok and _cmp_vec(ctx, "jac.op.vjp", case, Gmap(W), G.from_cv(gop["vjp" if conjugate else "vjp_noconj"]), jac_oracle)
         po, cv_ = scico.cvjp(F, U)
         ok = ok and _cmp_vec(ctx, "jac.cvjp", case, cv_(W)[0], G.from_cv(got["cvjp"]), jac_oracle)
         J = linop.jacobian(F, U, include_eval=inc)
@@ -1322,8 +1490,8 @@ def correspond(ctx, model):
 
     common.setup_scico()
     warnings.filterwarnings("ignore", message="Casting complex values to real")
-    for stream in (run_corpus, stream_boundary, stream_fn, stream_blocks, stream_single, stream_real_arg, stream_div_reject,
-                   stream_jac, stream_jac_mixed, stream_function, stream_hess, stream_heap, stream_autograd_api):
+    for stream in (run_corpus, stream_boundary, stream_l21, stream_tv, stream_fn, stream_blocks, stream_single, stream_real_arg,
+                   stream_div_reject, stream_jac, stream_jac_mixed, stream_function, stream_hess, stream_heap, stream_autograd_api):
         _guard(ctx, model, stream)
 
 
